@@ -314,7 +314,11 @@ def r4(ctx, cfg, R="C06.R4"):
                 ok = len(rets) == 1 and rets[0].startswith("call:cosmwasm_std::Storage::get(self.storage, key)")
                 inst = "miss->base.get(key)"
             elif delta == "Set":
-                ok = len(rets) == 1 and rets[0].startswith("agg:std::option::Option::Some") and "value" in rets[0] and "get(" in rets[0]
+                # (the stored value itself: in the rendering of the payload, `get(self.local_state, key)` is the only call)
+                import re as _re
+                calls_in = _re.findall(r"([A-Za-z_][A-Za-z_0-9]*)\(", rets[0].split("{", 1)[1]) if len(rets) == 1 and "{" in rets[0] else ["?"]
+                ok = len(rets) == 1 and rets[0].startswith("agg:std::option::Option::Some") and "value" in rets[0] and "get(" in rets[0] and \
+                    all(c in ("get", "some", "ok") for c in calls_in)
                 inst = "hit(Set)->Some(value)"
             else:
                 ok = len(rets) == 1 and rets[0].startswith("agg:std::option::Option::None")
